@@ -21,6 +21,9 @@ func init() {
 
 func c13(c *Ctx) {
 	c.haltLockSetFollowsMode("holder")
+	c.postApplyVerifiedBeforePublish("forwarded")
+	c.Before("local-commit/Drop/position-read-under-lock", "litefs.(*DB).Drop", c.P.PlainCalls("litefs.(*DB).Pos", "litefs.(*DB).PageN"), c.P.PlainCalls("litefs.(*DB).AcquireWriteLock"), 2,
+		"Drop reads the position (and page count) its transaction builds on only after it holds the write lock", "a drop that waited behind a halt lock would build on the pre-halt position: its file overwrites the replica's acknowledged forwarded transaction of that TXID")
 	{
 		// the primary commits no local transaction while the halt lock is granted: the three local publishers
 		// either run under SQLite's own write lock (CommitJournal, CommitWAL: gated by the FUSE lock protocol,
